@@ -2,16 +2,25 @@
 
 Three layers, all descriptor based (descriptors are JSON-able: dict/list/str/int/float/bool/None):
 
-* **strategies** - ``map_descs(cfg)``, ``entity_descs(cfg)``, ``solid_descs(cfg)``, ``side_descs(cfg)``,
-  ``disp_descs(cfg)``, ``output_descs(cfg)``, ``visgroup_descs(cfg)`` ... produce descriptors.  ``GenConfig`` holds the
-  size limits, the weight of "nasty" strings (quotes, backslashes, control characters) and which optional
-  features are generated (displacements / multiblend / Strata extensions / duplicate ids).
-* **builders** - ``build_vmf(desc)``, ``build_entity(vmf, desc)``, ``build_solid(vmf, desc)``, ``build_side(vmf, desc)``
-  construct the srctools objects through the *public* constructors / attributes only.
-* **walker** - ``vmf_content(vmf)`` reads a map back into a plain structure through public attributes (never through
-  export/parse), with numeric leaves tagged by tolerance class; ``normalise_roundtrip`` removes what the VMF text
-  format cannot carry; ``diff_content`` compares two structures; ``renumber_ids`` renumbers ids on a parsed
-  Keyvalues tree (independent of vmf.py).
+* **strategies** (all take a ``GenConfig`` and are cached per config, so call them freely):
+  ``map_descs(cfg, preserve_ids=None, min_ents=0, brush_ents=None)``, ``entity_descs(cfg, world=False, brush=None)``,
+  ``solid_descs(cfg)``, ``side_descs(cfg, allow_disp=None)``, ``disp_descs(cfg)``, ``vertex_descs(cfg, multiblend)``,
+  ``output_descs(cfg)``, ``fixup_descs(cfg)``, ``visgroup_descs(cfg)``, ``group_descs()``, ``camera_descs(cfg)``,
+  ``cordon_descs(cfg)``, ``viewport_descs(cfg)``, ``settings_descs(cfg)``; leaves ``coords(cfg)``, ``gnums()``,
+  ``exact_floats()``, ``vec3(cfg)``, ``colors()``, ``ids(lo, hi)``, ``any_text(cfg, exclude)``, ``ent_keys(cfg, world)``,
+  ``materials(cfg)``, ``fixup_vars(cfg)``.  ``GenConfig`` holds the size limits, the weight of "nasty" strings (quotes,
+  backslashes, control characters, arbitrary Unicode) and which optional features are generated (solids / displacements /
+  multiblend / Strata extensions / meta blocks / membership ids / duplicate ids / three-digit fixup ids / tiny negatives).
+* **builders** - ``build_vmf(desc)``, ``build_entity(vmf, desc, add=False)``, ``build_solid(vmf, desc)``,
+  ``build_side(vmf, desc)``, ``build_output(desc)``, ``build_visgroup(vmf, desc)``, ``build_viewport(desc)`` construct the
+  srctools objects through the *public* constructors / attributes only.  Missing descriptor fields take the
+  constructor defaults, so hand-written descriptors can be short.
+* **walker** - ``vmf_content(vmf)`` (and ``entity_content`` / ``solid_content`` / ``side_content`` / ``output_content`` /
+  ``visgroup_content``) read a map back into a plain structure through public attributes (never through export/parse),
+  numeric leaves tagged by tolerance class; ``normalise_roundtrip(content, minimal, disp_multiblend)`` removes what the
+  VMF text format cannot carry; ``diff_content(a, b, ids='exact'|'renumber')`` compares two structures;
+  ``renumber_ids(text_or_keyvalues)`` renumbers ids on a parsed Keyvalues tree (independent of vmf.py);
+  ``desc_stats(map_desc)`` counts object kinds for histograms.
 
 Generator preconditions (every one is something the text format cannot carry, grounded in vmf.py / VBSP):
 see ``PRECONDITIONS``.
